@@ -381,6 +381,101 @@ def _reads(fn, expr):
 SET_MUTATORS = ("update", "add", "discard", "remove", "clear", "pop", "difference_update", "intersection_update", "symmetric_difference_update")
 
 
+def _expand_each(prog, fn, summ, _depth=0):
+    """('each', <iterable>, elt, None) contributions whose iterable is put together from pieces - chain(A, B), A + B, a local
+    bound once, `[] if c else [x]`, a display [x, y], a helper method returning such a list - are split into one contribution
+    per piece; None if a piece is not understood"""
+    import copy
+    out = set()
+
+    def one(x_node, elt, guard):
+        return ("one", elt.replace("$", unparse(x_node)) if unparse(x_node).isidentifier() or "." in unparse(x_node) else elt.replace("$", f"({unparse(x_node)})"), guard)
+
+    def neg(c):
+        return f"not ({unparse(c)})"
+
+    def empty(e):
+        return isinstance(e, (ast.List, ast.Tuple)) and not e.elts
+
+    def pieces(e, elt, guard, depth=0):
+        if depth > 6:
+            return None
+        if isinstance(e, ast.Call) and dotted(e.func) in ("chain", "itertools.chain", "list", "tuple", "iter") and e.args and not e.keywords:
+            res = set()
+            for a in e.args:
+                r = pieces(a, elt, guard, depth + 1)
+                if r is None:
+                    return None
+                res |= r
+            return res
+        if isinstance(e, ast.BinOp) and isinstance(e.op, ast.Add):
+            a, b = pieces(e.left, elt, guard, depth + 1), pieces(e.right, elt, guard, depth + 1)
+            return None if a is None or b is None else a | b
+        if isinstance(e, (ast.List, ast.Tuple)):
+            res = set()
+            for x in e.elts:
+                if isinstance(x, ast.Starred):
+                    r = pieces(x.value, elt, guard, depth + 1)
+                    if r is None:
+                        return None
+                    res |= r
+                else:
+                    res.add(one(x, elt, guard))
+            return res
+        if isinstance(e, ast.IfExp) and guard is None:
+            if empty(e.body):
+                return pieces(e.orelse, elt, neg(e.test), depth + 1)
+            if empty(e.orelse):
+                return pieces(e.body, elt, unparse(e.test), depth + 1)
+            return None
+        if isinstance(e, ast.Name):
+            ds = [st.value for st in walk_local(fn.node) if isinstance(st, ast.Assign) and len(st.targets) == 1 and unparse(st.targets[0]) == e.id]
+            if len(ds) == 1:
+                return pieces(ds[0], elt, guard, depth + 1)
+            return None
+        if isinstance(e, ast.Call) and isinstance(e.func, ast.Attribute) and unparse(e.func.value) == "self" and not e.args and fn.cls is not None \
+                and e.func.attr in fn.cls.methods and _depth < 2:
+            # a helper method that returns the list: its body with `return X` read as `return set().union(*[<elt> for $ in X])`
+            h = fn.cls.methods[e.func.attr]
+            body = copy.deepcopy(h.node)
+            rets = [n for n in ast.walk(body) if isinstance(n, ast.Return) and n.value is not None]
+            if not rets:
+                return None
+            for r_ in rets:
+                comp = ast.ListComp(elt=ast.parse(elt.replace("$", "u__"), mode="eval").body,
+                                    generators=[ast.comprehension(target=ast.Name(id="u__", ctx=ast.Store()), iter=r_.value, ifs=[], is_async=0)])
+                r_.value = ast.Call(func=ast.Attribute(value=ast.Call(func=ast.Name(id="set", ctx=ast.Load()), args=[], keywords=[]), attr="union", ctx=ast.Load()),
+                                    args=[ast.Starred(value=comp, ctx=ast.Load())], keywords=[])
+            ast.fix_missing_locations(body)
+            import types as _t
+            fake = _t.SimpleNamespace(node=body, qual=h.qual, cls=h.cls, module=h.module, params=h.params)
+            sub = shared.union_summary(fake)
+            if sub is None:
+                return None
+            sub = _expand_each(prog, fake, sub, _depth + 1)
+            if sub is None or guard is not None:
+                return None
+            return set(sub)
+        if isinstance(e, (ast.Attribute, ast.Call)):
+            return {("each", unparse(e), elt, guard)} if guard is None else None
+        return None
+
+    for c in summ:
+        if c[0] == "each" and c[3] is None:
+            try:
+                node = ast.parse(c[1], mode="eval").body
+            except SyntaxError:
+                out.add(c)
+                continue
+            r = pieces(node, c[2], None)
+            if r is None:
+                return None
+            out |= r
+        else:
+            out.add(c)
+    return frozenset(out)
+
+
 def _var_names_not_mutated(prog, rep, rule):
     """the set of used variables is recomputed on every call: an in-place update of a `<object>.var_names` result is harmless
     only while every implementation of var_names hands out a set of its own (a shared one would accumulate the variables of
@@ -478,6 +573,8 @@ def _var_names_not_mutated(prog, rep, rule):
 def r9_4(prog, rep, rule="R9.4"):
     f = prog.fn("terms.terms.Model.var_names")
     summ = shared.union_summary(f)
+    if summ is not None:
+        summ = _expand_each(prog, f, summ)
     modelled = summ is not None
     if summ is None:
         rep.defer(f"{rule}: {f.qual} builds its set in a way the union algebra does not model")
